@@ -824,6 +824,14 @@ impl Job {
     }
 }
 
+/// Values encoded between the repetitions of an `R` case on every second thread (see `r_case`).
+const POISON_VALUES: [&str; 4] = [
+    "RR (RR 65 (N x737663 x6578616d706c65 x6f7267) 1 300 (SVCB 1 (N x74 x6578616d706c65 x6f7267) (L (MAND 6 4 3 1) (ALPN x6832 x6833) (PORT 443) (V4 xc0000201 xc0000202) (V6 x00000000000000000000000000000001))))",
+    "Dns (Dns 1 (F 0 0 0 0 0 0 0 0 0) (L) (L) (L (RR 2 (N x61 x62 x6578616d706c65 x6f7267) 1 0 (G (N x63 x62 x6578616d706c65 x6f7267))) (RR 2 (N x6578616d706c65 x6f7267) 1 0 (G (N x64 x4558414d504c45 x4f5247)))) (L))",
+    "RR (RR 41 (N) 0 0 (OPT 1232 0 0 1 (L (COOKIE x0000000000000000 (O x00000000000000000000000000000000)) (PAD 31) (ECS 1 24 0 x0a010200))))",
+    "RR (RR 42 (N x61706c) 1 5 (APL (L (I 1 24 1 x0a010200) (I 2 64 0 x20010db8000000000000000000000000))))",
+];
+
 /// Rejected inputs whose decoding visits many offsets before it fails (see `r_case`).
 fn poison_inputs() -> Vec<(&'static str, Bytes)> {
     let mut out: Vec<(&'static str, Bytes)> = Vec::new();
@@ -894,11 +902,20 @@ fn r_case(rest: &str) -> String {
     let job = Arc::new(job);
     let before = job.snapshot();
     let poison = Arc::new(poison_inputs());
+    // values encoded in between as well (a long `mandatory` list, several names, an OPT with options, APL items): state an
+    // encoder keeps across calls -- a scratch buffer, a cache -- shows when a DIFFERENT value was encoded before
+    let poison_e: Arc<Vec<Value>> = Arc::new(
+        POISON_VALUES
+            .iter()
+            .filter_map(|c| prepare_e(c).ok())
+            .collect(),
+    );
 
     let handles: Vec<_> = (0..threads)
         .map(|idx| {
             let job = Arc::clone(&job);
             let poison = Arc::clone(&poison);
+            let poison_e = Arc::clone(&poison_e);
             std::thread::spawn(move || {
                 let mut distinct: HashSet<String> = HashSet::new();
                 let mut first: Option<String> = None;
@@ -910,6 +927,9 @@ fn r_case(rest: &str) -> String {
                     if (threads > 1 && idx % 2 == 1) || (threads == 1 && rep >= reps / 2) {
                         let (entry, bytes) = &poison[(rep + idx) % poison.len()];
                         let _ = run_d(entry, bytes.clone());
+                        if !poison_e.is_empty() {
+                            let _ = encode_line(&poison_e[(rep + idx) % poison_e.len()]);
+                        }
                     }
                     let line = job.run();
                     if first.is_none() {
